@@ -97,11 +97,11 @@ def setup(tier, seed):
     for kind, side, exch in sess:
         jobs.append(Job('sess_3_%s_%s_%s' % (kind, side, exch), h_session, {'n': 3, 'kind': kind, 'side': side, 'exch': exch}, {'max_decisions': 4000}))
     # three resting entries (prices in any order, ties included) against ONE symbolic minute
-    for side in (('long',) if tier == 'quick' else ('long', 'short')):
+    for side in ('long',):
         jobs.append(Job('sess_2_T2x_%s_futures' % side, h_session, {'n': 2, 'kind': 'T2x', 'side': side, 'exch': 'futures'}, {'max_decisions': 4000}))
     spec = {
         'jobs': jobs,
-        'budget_s': 600 if tier == 'quick' else 2400,
+        'budget_s': 780 if tier == 'quick' else 3300,
         'explanation': 'split_candle and _sort_execution_orders are executed on a symbolic candle (OHLC reals, l<=o,c<=h) and '
                        'symbolic prices inside its range; every clause of the statement is a solver query per path '
                        '(unsat of the negation = holds for every value of that ordinal arrangement, ties included). '
